@@ -53,7 +53,9 @@ func (s *ldapStorage) Certificate() (*tls.Certificate, error) {
 			return nil, err
 		}
 		if err = s.Set(keyname, pemkey); err != nil {
+			// not stored: the next start would generate another one
 			log.Errorf("Could not persist %s: %s", keyname, err.Error())
+			return nil, err
 		}
 	}
 
@@ -67,7 +69,9 @@ func (s *ldapStorage) Certificate() (*tls.Certificate, error) {
 		log.Debug("TLS new certificate generated")
 
 		if err = s.Set(certname, pemcert); err != nil {
+			// not stored: the next start would generate another one
 			log.Errorf("Could not persist %s: %s", certname, err.Error())
+			return nil, err
 		}
 	}
 
